@@ -5,7 +5,8 @@ params:
   jobs      [{S, D (delegate duration), fail: bool (delegate raises), y: n (yield on the n-th poll that shows it;
               0 = never), yexc: bool (yield an exception), K: cancel time | None}]
   cancel_fn None | "true" | "false" | "raise"
-  poll_raise  call index at which the poll function raises (0 = never)
+  poll_raise  call index at which the poll function raises (0 = never); poll_raise_after: it first yields for the
+              futures that are due and raises afterwards
   poll_dur  virtual duration of each poll call
   notify    [times]
   interval  default interval (ticks)
@@ -44,7 +45,8 @@ def build(p):
             try:
                 if p.get("poll_dur"):
                     E.vsleep(p["poll_dur"])
-                if p.get("poll_raise") == k:
+                raise_now = p.get("poll_raise") == k
+                if raise_now and not p.get("poll_raise_after"):
                     exc = H.OtherError("poll%d" % k)
                     E.emit("PollRet", k=k, a=1, b=s.ident(exc, "val"))
                     raise exc
@@ -64,6 +66,11 @@ def build(p):
                             E.upoint()
                             d.yield_result(v)
                         E.emit("YieldRet", f=j, k=k)
+                if raise_now:
+                    # the poll function resolved some of the futures it was shown and then fails
+                    exc = H.OtherError("poll%d" % k)
+                    E.emit("PollRet", k=k, a=1, b=s.ident(exc, "val"))
+                    raise exc
                 E.emit("PollRet", k=k, a=0)
             except H.OtherError:
                 raise
